@@ -69,7 +69,7 @@ def cases(draw):
         happy = draw(st.integers(min(n, j), n))
         if draw(st.booleans()):
             servers = [[draw(st.sampled_from(["ok", "ok", "ok", "fail-write", "fail-close", "disconnect"])), draw(st.integers(0, 6))] if i >= j else ["ok", 0] for i in range(nserv)]
-    return {"k": k, "n": n, "happy": happy, "servers": servers, "seg": seg, "size": size, "pre": pre,
+    return {"hsalt": draw(st.integers(0, 15)), "k": k, "n": n, "happy": happy, "servers": servers, "seg": seg, "size": size, "pre": pre,
             "sched": draw(st.lists(st.integers(0, 12), max_size=draw(st.sampled_from([0, 30, 200]))))}
 
 
